@@ -140,4 +140,22 @@ PROPS.update({
         assumptions=SPACE_ASSUME),
 })
 
+GRID_ASSUME = ['pandas: DataFrame({"pos": L}) copies L into column pos; df[c] = seq stores a copy (element i in row i); '
+               'c in df is column membership; drop(columns=[c], inplace=True) removes only c; iloc[i] is row i with all '
+               'columns', 'row-major law for an unfiltered nest of ranges (engine semantics)',
+               'extents are non-negative integers; world dimensions are not mutated after construction']
+
+PROPS.update({
+    'C09': dict(
+        level_text='Deductive proof: the id formula equals z*W*H + y*W + x with zero extents counted as 1 (nonlinear '
+                   'lemmas: in range 0..cells-1 and injective on in-range coordinates, for all extents); the position '
+                   'table built by the constructor holds (x, y, z) at id(x, y, z) (row-major law of the comprehension); '
+                   'get_cell returns row id(x, y, z) for in-range coordinates and raises IndexError exactly for '
+                   'coordinates outside the grid (argument order of the id call is part of the obligation).',
+        level_note='Assumes the pandas contracts (column copy, iloc[i] = row i with all columns), engine row-major law.',
+        functions=['Environments.discrete_grid_pos_to_id', 'Environments.DiscreteWorld.__init__',
+                   'Environments.DiscreteWorld.get_cell'],
+        assumptions=GRID_ASSUME),
+})
+
 NOT_APPLICABLE = {}
